@@ -547,7 +547,7 @@ class CreateSolutionOp(clib.Op):
     """Container.create_solution(solute(s), solvent, name, two of concentration / quantity / total_quantity).
     case = (kinds of the solutes, given, (num, den), quantity unit, total unit, solvent form)"""
     FN = 'Container.create_solution'
-    PROPS_OF = {'display-value-feeds-state': ['C05', 'C19', 'C03'], 'only-named': ['C05'], 'positive': ['C05', 'C03'], 'conc': ['C05'], 'qty': ['C05'], 'total': ['C05'],
+    PROPS_OF = {'display-value-feeds-state': ['C05', 'C19', 'C03'], 'only-named': ['C05'], 'positive': ['C05'], 'conc': ['C05'], 'qty': ['C05'], 'total': ['C05'],
                 'refuse': ['C05', 'C03'], 'accept': ['C05', 'C03'], 'aliquot': ['C05'], 'nothing-lost': ['C05'],
                 'nonneg': ['C03'], 'vol': ['C10'], 'frame': ['C04'], 'fresh': ['C04'], 'safe': ['C03', 'C05']}
     TIMEOUT = 20000
